@@ -28,7 +28,7 @@ ASSUMPTIONS = [
     "audioSplice with alignToZeroCrossing=True: any praatio error is a rejection (crossing search / boundary shift are documented as unchecked)",
     "audioSplice without alignment: the only accepted rejection is a praatio error when an interval of the target tier straddles the insertion point",
 ]
-REQUIRED_CLASSES = ["zero_crossing:returned_sign_change", "zero_crossing:returned_zero_sample", "zero_crossing:not_found",
+REQUIRED_CLASSES = ["search_edit_search:search_edit_search", "zero_crossing:returned_sign_change", "zero_crossing:returned_zero_sample", "zero_crossing:not_found",
                     "zero_crossing:step_too_small", "zero_crossing:nonintegral_step", "splice:returned_aligned",
                     "splice:returned_unaligned", "splice:replaced_region", "tg_boundaries:returned"]
 
@@ -109,6 +109,45 @@ def run_zero_crossing(case):
     if not on_grid:
         cl.add("offgrid_target")
     return {"classes": sorted(cl), "nontrivial": any(samples)}
+
+
+def run_search_edit_search(case):
+    """A zero-crossing search, an in-place edit that keeps the length, another search: the second result
+    must be a crossing of the audio that is in the Wav now."""
+    p = P()
+    width, rate, samples = case["width"], case["rate"], list(case["samples"])
+    wav = mk_wav(samples, width, rate)
+    n = len(samples)
+    t = (case["target"] % (n + 1)) / rate
+    try:
+        wav.findNearestZeroCrossing(t)
+    except p.errors.PraatioException:
+        pass
+    i, j = sorted([case["i"] % (n + 1), case["j"] % (n + 1)])
+    new = [case["fill"]] * (j - i)
+    wav.replaceSegment(i / rate, j / rate, to_bytes(new, width))
+    samples[i:j] = new
+    if from_bytes(wav.frames, width) != samples:
+        raise Violation("samples-differ", "replaceSegment with an equally long stretch")
+    try:
+        r = wav.findNearestZeroCrossing(t)
+    except p.errors.ArgumentError:
+        return {"classes": ["step_too_small"], "nontrivial": False}
+    except p.errors.FindZeroCrossingError:
+        return {"classes": ["not_found_after_edit"], "nontrivial": False}
+    check_crossing_value(r, samples, rate, True, f"search, replaceSegment({i},{j}) with {case['fill']}, search again at {t!r}")
+    got = list(wav.getSamples(0, n / rate))
+    if got != samples:
+        raise Violation("samples-differ", "getSamples after search/edit/search returns other samples than the frames hold")
+    return {"classes": ["search_edit_search"], "nontrivial": j > i}
+
+
+@st.composite
+def ses_cases(draw):
+    width, rate, s, kind = draw(recording(kinds=["sine", "single", "random"], min_n=20))
+    rate = draw(st.sampled_from([8000, 16000, 44100]))
+    return {"width": width, "rate": rate, "samples": s, "target": draw(st.integers(0, 400)), "i": draw(st.integers(0, 400)),
+            "j": draw(st.integers(0, 400)), "fill": draw(st.sampled_from([80, -80, 1, 100]))}
 
 
 def run_tg_boundaries(case):
@@ -221,7 +260,9 @@ def run_splice(case):
                 raise Violation("earlier-entry-changed", f"{what}: {e} (ends before {edit_point}) not in result tier {at['entries']}")
         late_point = max(point, aligned_start if t_stop is None else point)
         if not align:
-            later = [e[-1] for e in bt["entries"] if e[0] >= point and e[-1] != ""]
+            # a point exactly on the end of a replaced region belongs to the erased region (C07: a <= t <= b)
+            strict = bt["type"] == "point" and t_stop is not None
+            later = [e[-1] for e in bt["entries"] if (e[0] > point if strict else e[0] >= point) and e[-1] != ""]
             got = [e[-1] for e in at["entries"] if e[-1] != "SPLICE"]
             it = iter(got)
             if not all(l in it for l in later):
@@ -240,11 +281,17 @@ def recording(draw, max_n=400, kinds=None, min_n=0):
     width = draw(st.sampled_from([1, 2, 4]))
     rate = draw(st.sampled_from([100, 1000, 8000, 16000, 44100]))
     n = draw(st.one_of(st.integers(min_n, max(40, min_n)), st.integers(min_n, max_n)))
-    kind = draw(st.sampled_from(kinds or ["random", "positive", "zero", "sparse_zero", "single", "sine", "sine"]))
+    kind = draw(st.sampled_from(kinds or ["random", "positive", "zero", "sparse_zero", "single", "sine", "sine", "byte_patterns"]))
     if kind == "random":
         s = draw(st.lists(st.integers(-100, 100), min_size=n, max_size=n))
     elif kind == "positive":
         s = draw(st.lists(st.integers(1, 100), min_size=n, max_size=n))
+    elif kind == "byte_patterns":
+        # non-zero samples whose packed bytes contain runs of zero bytes (5, 256, 2**24 ...), all of one sign
+        top = {1: [1, 5, 127], 2: [5, 255, 256, 512, 32512], 4: [5, 255, 256, 65536, 2 ** 24, 3 * 2 ** 24]}[width]
+        s = draw(st.lists(st.sampled_from(top), min_size=n, max_size=n))
+        if draw(st.booleans()):
+            s = [-v for v in s]
     elif kind == "zero":
         s = [0] * n
     elif kind == "sparse_zero":
@@ -306,6 +353,7 @@ def splice_cases(draw):
 
 CHECKS = [
     Check("zero_crossing", run_zero_crossing, strategy=lambda tier: zc_cases(), quick_n=1500, thorough_n=25000),
+    Check("search_edit_search", run_search_edit_search, strategy=lambda tier: ses_cases(), quick_n=300, thorough_n=5000),
     Check("tg_boundaries", run_tg_boundaries, strategy=lambda tier: tgb_cases(), quick_n=300, thorough_n=5000),
     Check("splice", run_splice, strategy=lambda tier: splice_cases(), quick_n=500, thorough_n=8000),
 ]
